@@ -264,6 +264,13 @@ class Analyzer3:
         for k in [k for k in st.rel if k[1] == did]:
             del st.rel[k]
         st.ints.pop(did, None)
+        # n = strcspn(c, ..) / strspn(c, ..) / strlen(c): n bytes of c's string before its terminator
+        r0 = strip_casts(rhs)
+        if r0.get('k') == 'call' and callee_name(r0) in ('strcspn', 'strspn', 'strlen') and r0['args']:
+            pn = self.norm(r0['args'][0])
+            if pn and pn[1] == 0 and pn[0] in self.tracked and st.nz.get(pn[0], NEG) >= 0:
+                st.rel[(pn[0], did)] = 0        # nz[c] >= n + 0
+                return
         c = const_val(rhs)
         if c is not None:
             st.ints[did] = c
@@ -326,6 +333,17 @@ class Analyzer3:
                     for k in [k for k in st.rel if k[0] == key]:
                         del st.rel[k]
                     st.nz[key] = 0 if nz >= 0 else NEG
+                elif op == '+=' and strip_casts(a['r']).get('k') == 'ref' and st.rel.get((key, strip_casts(a['r'])['d'])) is not None and \
+                        st.rel[(key, strip_casts(a['r'])['d'])] >= 0:
+                    # advance by a variable known not to exceed the bytes in front of the terminator (n = strcspn(c, ..); c += n)
+                    if record and key in self.tracked:
+                        self.site('BND3', a, 'advance of %s by %s stays inside the string' % (key, strip_casts(a['r'])['n']), True,
+                                  '%s non-terminator bytes are known at the cursor' % strip_casts(a['r'])['n'], 'adv:%s:spanvar' % key)
+                    slack = st.rel[(key, strip_casts(a['r'])['d'])]
+                    for k in [k for k in st.rel if k[0] == key]:
+                        del st.rel[k]
+                    st.nz[key] = slack
+                    st.back.pop(key, None)
                 else:
                     if record and key in self.tracked:
                         self.site('BND3', a, 'advance of %s by a computed amount' % key, False,
